@@ -7,7 +7,7 @@
     histories (fillers + [write_config]) is checked by evaluation of the executable oracle
     [exact_all] on the model and on the real library for every generated history; see DESIGN.md. *)
 Require Import Sedpack.Model.Base Sedpack.Generated.GenMerge Sedpack.Model.Filler Sedpack.Model.Meta.
-Require Import Sedpack.Proofs.MergeBasics Sedpack.Proofs.MergeProofs Sedpack.Proofs.HistoryProofs Sedpack.Proofs.ReachProofs Sedpack.Proofs.NoDupProofs.
+Require Import Sedpack.Proofs.MergeBasics Sedpack.Proofs.MergeProofs Sedpack.Proofs.HistoryProofs Sedpack.Proofs.ReachProofs Sedpack.Proofs.NoDupProofs Sedpack.Proofs.TotalProofs.
 
 (** For every fuel, every non-empty list of updates below a common directory [p] (of depth
     [c]), and every file system whose list documents below [p] are locally well formed (what
@@ -60,6 +60,15 @@ Theorem c04_every_history_satisfies_exact_all :
   forall eps : nat, 1 <= eps -> forall (h : list session) (fs : fsT) (info : dinfo), run_history eps h = Ok (fs, info) -> exact_all fs info = true.
 Proof. exact history_exact_all. Qed.
 Print Assumptions c04_every_history_satisfies_exact_all.
+
+(** Total correctness: every history whose sessions write at most FUEL-1 = 39 directory levels below a split COMPLETES — the merge
+    never trips an assertion (the generated switch says the over-strict one is not in the source), never finds its updates
+    inconsistent, never runs out of recursion budget — and the result satisfies the whole oracle. *)
+Theorem c04_every_bounded_history_completes_and_is_exact :
+  forall eps : nat, 1 <= eps -> forall h : list session, Forall (sdepth (S FUEL)) h ->
+  exists fs info, run_history eps h = Ok (fs, info) /\ exact_all fs info = true.
+Proof. exact bounded_history_completes_exact. Qed.
+Print Assumptions c04_every_bounded_history_completes_and_is_exact.
 
 (** Non-vacuity and a whole-history instance: nested, reused and multi-writer sessions into two
     splits end in a state that the executable exactness oracle accepts (all counts, totals, child
